@@ -255,6 +255,15 @@ func C01(c *fw.Ctx) {
 		{func() *model.N { return model.Num(1) }, func() *model.N { return model.Str("2") }, func() *model.N { return model.Num(3) }, func() *model.N { return model.Str("x") }},
 		{func() *model.N { return model.Str("5") }, func() *model.N { return model.Num(1) }, func() *model.N { return model.Str("\u099f\u09be\u0995\u09be") }, func() *model.N { return model.Num(2) }},
 		{func() *model.N { return model.Num(1) }, func() *model.N { return model.Num(1) }, func() *model.N { return model.Str("\u09e8") }, func() *model.N { return model.Bool(true) }},
+		// fractions whose products and sums do not associate, as literals and through variables in every position
+		{func() *model.N { return model.Num(0.1) }, func() *model.N { return model.Num(0.2) }, func() *model.N { return model.Num(0.3) }, func() *model.N { return model.Num(1.1) }},
+		{func() *model.N { return model.Id("va") }, func() *model.N { return model.Num(0.1) }, func() *model.N { return model.Num(10) }, func() *model.N { return model.Num(0.7) }},
+		{func() *model.N { return model.Num(0.1) }, func() *model.N { return model.Id("vb") }, func() *model.N { return model.Num(0.3) }, func() *model.N { return model.Id("va") }},
+		{func() *model.N { return model.Num(1.1) }, func() *model.N { return model.Num(0.7) }, func() *model.N { return model.Id("va") }, func() *model.N { return model.Id("vb") }},
+		{func() *model.N { return model.CallN("fa") }, func() *model.N { return model.Num(0.1) }, func() *model.N { return model.Num(3) }, func() *model.N { return model.Num(1.1) }},
+	}
+	leafPrelude := func() []*model.N {
+		return []*model.N{model.Var("va", model.Num(3)), model.Var("vb", model.Num(0.2)), model.Fun("fa", nil, model.Return(model.Num(0.7)))}
 	}
 	for ls := range leafSets {
 		L := func(i int) *model.N { return leafSets[ls][i]() }
@@ -276,8 +285,8 @@ func C01(c *fw.Ctx) {
 						if !c.Mine() {
 							continue
 						}
-						p1 := model.Render([]*model.N{model.Parenthesize(model.Print(sh), true)})
-						p2 := model.Render([]*model.N{model.Parenthesize(model.Print(sh), false)})
+						p1 := model.Render(append(leafPrelude(), model.Parenthesize(model.Print(sh), true)))
+						p2 := model.Render(append(leafPrelude(), model.Parenthesize(model.Print(sh), false)))
 						o1 := h.RunFile(p1, h.Opts{})
 						o2 := h.RunFile(p2, h.Opts{})
 						c.Eval(p1+p2, true)
